@@ -94,7 +94,7 @@ def parse_template(text):
                     # //@@ letexpr <file> <fn> <var> params=a:&T;b:U ret=r:TYPE [tags=..]
                     cur = Directive('letexpr', words[1], words[2] + ' ' + words[3], parse_opts([w for w in words[4:] if '=' in w]), i + 1)
                 elif head == 'fn':
-                    cur = Directive('fn', words[1], ' '.join(w for w in words[2:] if '=' not in w and w not in ('trusted', 'n5')), parse_opts([w for w in words[2:] if '=' in w or w in ('trusted', 'n5')]), i + 1)
+                    cur = Directive('fn', words[1], ' '.join(w for w in words[2:] if '=' not in w and w not in ('trusted', 'n5', 'n6')), parse_opts([w for w in words[2:] if '=' in w or w in ('trusted', 'n5', 'n6')]), i + 1)
                 elif head in ('type', 'const', 'alias', 'static', 'trait'):
                     d = Directive(head, words[1], words[2], parse_opts(words[3:]), i + 1)
                     out.append(('dir', d))
@@ -360,6 +360,73 @@ def split_n1(body_src, gen, fname):
     return out
 
 
+def split_let_chains(body, gen, fname):
+    """N6: `if A && let P = E && B { BLOCK }` (no else)  ->  `if A { if let P = E { if B { BLOCK } } }`.
+    A let-chain condition is by definition evaluated left to right with `&&` short-circuit and the bindings of each `let` in scope
+    for what follows, which is exactly the nesting; without an `else` branch there is no other path to preserve."""
+    while True:
+        m = mask(body)
+        done = True
+        for mi in reversed(list(re.finditer(r'\bif\b', m))):
+            # condition: up to the first `{` at bracket depth 0
+            i = mi.end()
+            depth = 0
+            j = i
+            while j < len(m):
+                ch = m[j]
+                if ch in '([':
+                    depth += 1
+                elif ch in ')]':
+                    depth -= 1
+                elif ch == '{' and depth == 0:
+                    break
+                elif ch == ';' and depth == 0:
+                    j = -1
+                    break
+                j += 1
+            if j < 0 or j >= len(m):
+                continue
+            cond_m = m[i:j]
+            if not re.search(r'\blet\b', cond_m):
+                continue
+            # top-level && positions
+            cuts, depth, k = [], 0, 0
+            while k < len(cond_m) - 1:
+                ch = cond_m[k]
+                if ch in '([{':
+                    depth += 1
+                elif ch in ')]}':
+                    depth -= 1
+                elif depth == 0 and cond_m[k:k + 2] == '&&':
+                    cuts.append(k)
+                    k += 1
+                k += 1
+            if not cuts:
+                continue
+            if re.search(r'\|\|', ''.join(ch for ch in cond_m)) and any(True for _ in [0]):
+                # `||` next to a let chain is not legal Rust at top level; inside parentheses it is part of one conjunct - fine
+                pass
+            close = match_close(m, j)
+            rest = m[close + 1:].lstrip()
+            if rest.startswith('else'):
+                raise Unsupported('%s: let-chain with an else branch (N6 does not apply)' % fname)
+            cond = body[i:j]
+            parts, last = [], 0
+            for c in cuts:
+                parts.append(cond[last:c].strip())
+                last = c + 2
+            parts.append(cond[last:].strip())
+            before = body[mi.start():j + 1]
+            head = ' { '.join('if ' + p2 for p2 in parts) + ' {'
+            body = body[:mi.start()] + head + body[j + 1:close + 1] + ' }' * (len(parts) - 1) + ' /* N6 */' + body[close + 1:]
+            gen.n1_log.append({'function': fname, 'rule': 'N6', 'before': ' '.join(before.split()), 'after': head})
+            gen.drops['N6_let_chain_split'] = gen.drops.get('N6_let_chain_split', 0) + 1
+            done = False
+            break
+        if done:
+            return body
+
+
 def build_fn(gen, d):
     src, masked, it, impl_header = locate_fn(d)
     opts = d.opts
@@ -375,6 +442,24 @@ def build_fn(gen, d):
     sig = src[kw_line_start:it.body_open].rstrip()
     body = src[it.body_open:it.body_close + 1]
     body_masked = masked[it.body_open:it.body_close + 1]
+    if 'tailfrom' in opts:
+        # X7: the statements of the body from the (unique, top-level) statement starting with the given text to the end of the body,
+        # wrapped verbatim as a function of their free variables (signature given by the unit; a wrong type or a missing variable
+        # is a compile error -> undecided)
+        anchor = opts['tailfrom'][0].replace('~', ' ')
+        dm = depth_map(body_masked, 0, len(body_masked))
+        cands = [mm.start() for mm in re.finditer(re.escape(anchor), body) if dm[mm.start()] == 1 and body_masked[mm.start()] == body[mm.start()]]
+        if len(cands) != 1:
+            raise LostAnchor('%s: tail anchor `%s` found %d times at statement level' % (name, anchor, len(cands)))
+        gen.drops['X7_fn_tail_wrapped'] = gen.drops.get('X7_fn_tail_wrapped', 0) + 1
+        gen.drops['X7_statements_before_tail_dropped_lines'] = gen.drops.get('X7_statements_before_tail_dropped_lines', 0) + body[:cands[0]].count('\n')
+        body = '{\n    ' + body[cands[0]:]
+        body_masked = mask(body)
+        sig = opts['tailsig'][0].replace('~', ' ')
+        name = opts['tailname'][0]
+    if 'n6' in opts:
+        body = split_let_chains(body, gen, name)
+        body_masked = mask(body)
     # R2: a parameter written `_: T` gets a name (Verus wants an identifier); it cannot be referred to, so nothing else changes
     cnt = [0]
     def _name_param(mm):
